@@ -72,6 +72,8 @@ package logqlmetric
 //@ func build
 //@   modifies opened(), holds(*)
 //@   trusted_frame
+//@   assume_value_or_error sel
+//@   ensures[an-iterator-or-an-error] ret1 == nil ==> ret0 != nil
 //@   capture s  = call(sel, 0)
 //@   capture ra = call(RangeAggregation, 0)
 //@   capture ll = call(LiteralBinOp, 0)
@@ -271,6 +273,7 @@ package logqlmetric
 //@   inline
 
 //@ func VectorAggregation
+//@   ensures[an-iterator-or-an-error] ret1 == nil ==> ret0 != nil
 //@   logical al AggregatedLabels
 //@   logical x Sample
 //@   logical y Sample
@@ -389,6 +392,7 @@ package logqlmetric
 
 // closeOnError closes what was built so far exactly when build is failing.
 //@ func build$1
+//@   requires[closes-only-what-was-built] rerr != nil ==> c != nil
 //@   capture c = call(c.Close, 0)
 //@   ensures[closes-iff-failing] c_called == (rerr != nil)
 
